@@ -16,7 +16,6 @@ use crate::nodes::{
 };
 use crate::parser::{Options, Plugins};
 use crate::scanners;
-use std::collections::HashMap;
 use std::io::{self, Write};
 use std::str;
 
@@ -525,8 +524,10 @@ fn render_code_block<'a, T>(
             context.cr()?;
 
             let mut first_tag = 0;
-            let mut pre_attributes: HashMap<String, String> = HashMap::new();
-            let mut code_attributes: HashMap<String, String> = HashMap::new();
+            // use vectors to ensure attributes are always written in the same
+            // order (see also render_math_code_block)
+            let mut pre_attributes: Vec<(String, String)> = Vec::new();
+            let mut code_attributes: Vec<(String, String)> = Vec::new();
             let code_attr: String;
 
             let literal = &ncb.literal.as_bytes();
@@ -541,25 +542,25 @@ fn render_code_block<'a, T>(
                 let info_str = std::str::from_utf8(&info[first_tag..]).unwrap().trim();
 
                 if context.options.render.github_pre_lang {
-                    pre_attributes.insert(String::from("lang"), lang_str.to_string());
+                    pre_attributes.push((String::from("lang"), lang_str.to_string()));
 
                     if context.options.render.full_info_string && !info_str.is_empty() {
                         pre_attributes
-                            .insert(String::from("data-meta"), info_str.trim().to_string());
+                            .push((String::from("data-meta"), info_str.trim().to_string()));
                     }
                 } else {
                     code_attr = format!("language-{}", lang_str);
-                    code_attributes.insert(String::from("class"), code_attr);
+                    code_attributes.push((String::from("class"), code_attr));
 
                     if context.options.render.full_info_string && !info_str.is_empty() {
-                        code_attributes.insert(String::from("data-meta"), info_str.to_string());
+                        code_attributes.push((String::from("data-meta"), info_str.to_string()));
                     }
                 }
             }
 
             if context.options.render.sourcepos {
                 let ast = node.data.borrow();
-                pre_attributes.insert("data-sourcepos".to_string(), ast.sourcepos.to_string());
+                pre_attributes.push(("data-sourcepos".to_string(), ast.sourcepos.to_string()));
             }
 
             match context.plugins.render.codefence_syntax_highlighter {
@@ -572,8 +573,8 @@ fn render_code_block<'a, T>(
                     context.write_all(b"</code></pre>\n")?
                 }
                 Some(highlighter) => {
-                    highlighter.write_pre_tag(context, pre_attributes)?;
-                    highlighter.write_code_tag(context, code_attributes)?;
+                    highlighter.write_pre_tag(context, pre_attributes.into_iter().collect())?;
+                    highlighter.write_code_tag(context, code_attributes.into_iter().collect())?;
 
                     highlighter.write_highlighted(
                         context,
